@@ -115,6 +115,7 @@ func (obj *Vector) Push(values ...Object) (index int) {
 			if len(obj.elements) <= obj.FillPtr {
 				obj.elements = append(obj.elements, v)
 				obj.FillPtr = len(obj.elements)
+				obj.dims[0] = len(obj.elements)
 			} else {
 				obj.elements[obj.FillPtr] = v
 				obj.FillPtr++
@@ -122,6 +123,7 @@ func (obj *Vector) Push(values ...Object) (index int) {
 			index = obj.FillPtr
 		} else {
 			obj.elements = append(obj.elements, v)
+			obj.dims[0] = len(obj.elements)
 			index = len(obj.elements)
 		}
 	}
@@ -140,6 +142,7 @@ func (obj *Vector) Pop() (element Object) {
 	} else if 0 < len(obj.elements) {
 		element = obj.elements[len(obj.elements)-1]
 		obj.elements = obj.elements[:len(obj.elements)-1]
+		obj.dims[0] = len(obj.elements)
 	}
 	return
 }
